@@ -178,6 +178,8 @@ func (c *EvalCtx) eval(e *Expr) CV {
 				srt, ty = "Str", types.Typ[types.String]
 			case "Bool", "bool":
 				srt, ty = "Bool", types.Typ[types.Bool]
+			case "ArrVal":
+				srt = "(Array Int Val)"
 			}
 			n.env[v.Name] = CV{T: "|" + name + "|", Sort: srt, Type: ty}
 			bs = append(bs, "(|"+name+"| "+srt+")")
@@ -625,6 +627,9 @@ func (c *EvalCtx) call(e *Expr) CV {
 		return boolean("(fp.eq " + a[0].T + " " + a[1].T + ")")
 	case "typeName":
 		return CV{T: "(typeName (dyn " + args()[0].T + "))", Sort: "Str", Type: types.Typ[types.String]}
+	case "idxOf":
+		a := args()
+		return integer(idxT(a[0].T, a[1].T))
 	case "cloFn":
 		return integer("(cloFn " + args()[0].T + ")")
 	case "cloBind":
